@@ -3,6 +3,7 @@ import ComposeVerif.Model.Dotenv
 import ComposeVerif.Spec.Dotenv
 import ComposeVerif.Model.DotenvTrace
 import ComposeVerif.Spec.DotenvPrint
+import ComposeVerif.Model.DotenvGlue
 /-! line-protocol ops for C18: `dotenv` (model of `dotenv.UnmarshalWithLookup`) -/
 open Lean
 namespace CV.Ops.C18
@@ -142,6 +143,14 @@ def dotenvCanon : Handler := fun args =>
   let t := printCanon m
   Json.mkObj [("text", str t), ("printable", Json.bool printable), ("parse", outJson (CV.Dotenv.parse t lookup))]
 
+/-- round 6: `ParseWithLookup` / `ReadFile` / `ParseWithFormat` with the dotenv parser registered: one BOM stripped -/
+def dotenvPWL : Handler := fun args =>
+  let src := (getStr args "src").toList
+  let lookup := envOfList (getStrMap args "lookup")
+  match parseWithFormat (registerFormat [] "c18dotenv" parseWithLookup) "c18dotenv" src lookup with
+  | some o => outJson o
+  | none => Json.mkObj [("unsupported", Json.bool true)]
+
 def handlers : List (String × Handler) := handlers1 ++ [("dotenvSpec", dotenvSpec), ("dotenvT", dotenvT), ("dotenvTags", dotenvTags),
-  ("dotenvCanon", dotenvCanon)]
+  ("dotenvCanon", dotenvCanon), ("dotenvPWL", dotenvPWL)]
 end CV.Ops.C18
